@@ -231,10 +231,16 @@ def _len_equals_nonzero(fact):
     return None
 
 
+_PRIM_WIDTH = {"u8": 1, "i8": 1, "u16": 2, "i16": 2, "u32": 4, "i32": 4, "f32": 4, "u64": 8, "i64": 8, "f64": 8, "u128": 16, "i128": 16}
+
+
 def _const_int(e):
     p = peel(e, through_try=False)
     if p is not None and p.k == "const" and isinstance(p.v, int) and not isinstance(p.v, bool):
         return p.v
+    if p is not None and p.k == "call" and p.q == "std::mem::size_of" and not p.args and p.f:
+        sub = (p.f.get("substs") or [""])[0]
+        return _PRIM_WIDTH.get(sub)       # size_of::<i16>() is the constant 2
     return None
 
 
@@ -299,12 +305,26 @@ def window_lower_bounds(body, bb, facts_obj=None):
         elif rel == "Ne":
             note((len_of_window(f[1]) if _is_zero(f[2]) else None) or (len_of_window(f[2]) if _is_zero(f[1]) else None), 1)
         elif rel in ("Gt", "Ge"):
-            c = _const_int(f[2])
+            c = _bound_const(body, bb, f[2])
             note(len_of_window(f[1]), (c + (1 if rel == "Gt" else 0)) if c is not None else 1 if rel == "Gt" else 0)
         elif rel in ("Lt", "Le"):
-            c = _const_int(f[1])
+            c = _bound_const(body, bb, f[1])
             note(len_of_window(f[2]), (c + (1 if rel == "Lt" else 0)) if c is not None else 1 if rel == "Lt" else 0)
     return out
+
+
+def _bound_const(body, bb, e):
+    """constant value of a bound, also for a value selected per state by an earlier `match` on the same discriminant as the
+    one bb lies under (the smallest of the alternatives that can be current)"""
+    c = _const_int(e)
+    if c is not None:
+        return c
+    alts = consistent_alts(body, e, bb)
+    if alts:
+        cs = [_const_int(a) for a in alts]
+        if all(x is not None for x in cs):
+            return min(cs)
+    return None
 
 
 def nonempty_windows(body, bb):
@@ -489,7 +509,29 @@ def rule_r4(facts, col, bodies=None):
             need = peel(e.args[1], through_try=False)
             key = "%s:need(%s)@%s" % (body.q, tgt, _guard_desc(body, bb))
             w = short_window_fact(fact)
-            if w is None or w[0] != tgt:
+            if w is None:
+                # `min(len(A), len(B) / c) == 0` with every other window established long enough: B is short of c
+                sw = several_windows_short_fact(fact, body, bb)
+                nd = _const_int(need)
+                if sw and tgt in sw and nd is not None:
+                    lbs = window_lower_bounds(body, bb, facts)
+                    rest = {f: t for f, t in sw.items() if lbs.get(f, 0) < t}
+                    if list(rest) == [tgt]:
+                        t = rest[tgt]
+                        if nd == t:
+                            col.ok("C09.R4", key, body.where(bb), "only self.%s can be the short one (threshold %d), waits for %d" % (tgt, t, nd))
+                        elif nd < t:
+                            col.bad("C09.R4", key, body.where(bb),
+                                    "work() needs %d samples on self.%s to proceed (the minimum it tests is 0 exactly when that window holds "
+                                    "fewer) but says it waits for only %d: with %d..%d available the wait is already satisfied, so the runner "
+                                    "calls it again at once and gets the same answer" % (t, tgt, nd, nd, t - 1), {})
+                        else:
+                            col.bad("C09.R4", key, body.where(bb),
+                                    "work() proceeds with %d samples on self.%s but waits for %d: when the peer delivers fewer than that and "
+                                    "goes away, the wait reports 'can never be satisfied' and the block is retired with samples it could have "
+                                    "processed" % (t, tgt, nd), {})
+                continue
+            if w[0] != tgt:
                 continue
             thr = short_window_threshold(fact)
             if thr is None:
